@@ -64,6 +64,15 @@ def gen_cases(tier, seed):
         for sh, ci in variants:
             o = workload.base_country(shutoff=sh, stored_food="zero", ratio_stocks_untouched=rnd.choice(["zero", "baseline"]), NMONTHS=rnd.choice([120, 72, 48]), **climates[ci])
             cases.append(workload.pipeline_case(iso, o, "no_initial_stocks/%s/%s" % (sh, "nw" if ci == 0 else "base")))
+    # herds that take no human-edible feed at all (only grazers left, ample pasture) next to a running biofuel demand: the feed side
+    # of round 2 is idle, biofuel alone competes with people
+    nonrum = ["chicken", "pig", "rabbit", "duck", "goose", "turkey", "other_rodents", "mule", "horse", "asses", "camelids"]
+    for j, iso in enumerate(workload.rotate(["DEU", "FRA", "USA", "GBR", "POL", "ITA", "ESP", "CAN"], seed)[: (3 if tier == "quick" else 8)]):
+        o = workload.base_country(shutoff=["continued", "long_delayed_shutoff", "continued_after_10_percent_fed"][j % 3], grasses="baseline", GRASSES_PRODUCTION_MULTIPLIER=10,
+                                  NMONTHS=[120, 72][j % 2])
+        for sp in nonrum:
+            o[sp + "_head"] = 0
+        cases.append(workload.pipeline_case(iso, o, "pasture_only_herds/%s" % o["shutoff"]))
     for T in THRESHOLDS:
         for j in range(4 if tier == "quick" else 24):
             o = workload.base_country(shutoff=rnd.choice(["continued", "long_delayed_shutoff", "continued_after_10_percent_fed", "short_delayed_shutoff"]),
